@@ -267,7 +267,9 @@ H_cev(r) ==
                ELSE IF cl1.taintW \/ \E i \in DOMAIN cl1.pend : cl1.pend[i].m \in {"subscribe", "get", "new", "call", "auth"} /\ cl1.pend[i].l < Get(cl1.dropped, r.rid, 0) THEN "KF-W"
                ELSE ""
         strayV == IF r.rid \in H \/ r.ev = "unsubscribe" THEN {}
-                  ELSE {V("C02", r.ev \o " event for " \o r.rid \o " which the client does not hold", kfU)}
+                  ELSE {V("C02", r.ev \o " event for " \o r.rid \o " which the client does not hold", kfU),
+                        \* C03, last clause: no event for a resource before the response or event that hands it to the client
+                        V("C03", r.ev \o " event for " \o r.rid \o " delivered while the client does not hold the resource (before it is handed over, or after it was released)", kfU)}
         res1 == SetRes(r.set) @@ cl1.res
         cur == Get(cl1.res, r.rid, ErrRes("none"))
         qlockV == IF r.seq = 0 THEN {}
@@ -341,7 +343,11 @@ H_note0(r) ==
             LET cl == o.conns[r.c]
                 \* the subscription is disposed while continuations are parked on it, or while a request
                 \* of the client on that resource is outstanding (its continuation may be running right now)
-                w == r.ready + r.access > 0 \/ r.called \/ \E i \in DOMAIN cl.pend : cl.pend[i].rid = r.rid
+                \* ... unless the latest access answer refused get access: then every waiter of that verdict is told so
+                \* (the callbacks of one access answer all run, each answers its request with the refusal)
+                g0 == GrantOf(cl, KeyOf(cl, r.rid))
+                refused == ~g0.none /\ ~(g0.ok /\ g0.get)
+                w == r.ready + r.access > 0 \/ r.called \/ (~refused /\ \E i \in DOMAIN cl.pend : cl.pend[i].rid = r.rid)
                 k == KeyOf(cl, r.rid)
             IN Res(SetConn(o, r.c, [cl EXCEPT !.dispW = IF w THEN Put(@, r.rid, l) ELSE @,
                                               !.unsent = @ \ {r.rid},
